@@ -15,11 +15,16 @@ from vlib.cosched.sched import Abort
 
 ENDS = ["shutdown:outside", "shutdown:payload", "sigint", "fail:asyncio", "fail:trio",
         "fail:threading"]
+#: shutdown() asked for by a coroutine payload, through a helper thread it waits for
+HELPER_ENDS = ["shutdown:from-trio", "shutdown:from-asyncio"]
 #: failures that leave accept() as something else than RuntimeError
 BASE_ENDS = ["fail:threading:SystemExit", "fail:asyncio:SystemExit", "fail:trio:UserBaseError",
              "fail:threading:GeneratorExit"]
 POPULATIONS = ["none", "sleepers", "blocked", "submitter", "shielded", "stubborn",
-               "cross-calls", "adopting:trio", "adopting:asyncio", "adopting:threading"]
+               "cross-calls", "adopting:trio", "adopting:asyncio", "adopting:threading",
+               # the adopter is a coroutine payload itself (adopted flavour @ adopter)
+               "adopting:trio@asyncio", "adopting:asyncio@trio", "adopting:threading@asyncio",
+               "adopting:asyncio@asyncio", "adopting:trio@trio"]
 ACCEPT_DELAY = 1.0
 
 
@@ -129,9 +134,10 @@ class Scenario:
             # shutdown, which a trio payload with shielded cleanup stretches
             kit.submit({"id": tag + "-trio", "flavour": "trio", "steps": [("forever", 0.4)],
                         "cleanup": ("shield", 1.0)})
-            kit.submit({"id": tag + "-adopter", "flavour": "threading", "steps": [
+            target, _, adopter = population.split(":")[1].partition("@")
+            kit.submit({"id": tag + "-adopter", "flavour": adopter or "threading", "steps": [
                 ("sleep", max(stop_at - 0.2, 0.0)),
-                ("repeat-adopt", {"id": tag + "-late", "flavour": population.split(":")[1],
+                ("repeat-adopt", {"id": tag + "-late", "flavour": target,
                                   "steps": [("forever", 0.4)]}, 0.15, 12)]})
             cleanup = 1.0
         if population == "stubborn":
@@ -159,6 +165,16 @@ class Scenario:
                 env.sleep(stop_at)
             end_action()
 
+        if end in HELPER_ENDS:
+            def request(_env):
+                runtime.running.wait()      # the property speaks of a runner that reports running
+                end_action()
+
+            env.shared["request-stop-%d" % index] = request
+            kit.submit({"id": tag + "-requester", "flavour": end.split("-")[1],
+                        "steps": [("sleep", stop_at), ("to-thread-call",
+                                                       "request-stop-%d" % index),
+                                  ("forever", 0.4)]})
         if end == "shutdown:payload":
             runtime.adopt(shutdown_payload, flavour=K.FLAVOURS["threading"])
         elif end.startswith("fail:"):
@@ -292,6 +308,10 @@ class Scenario:
                     "%s:accept-does-not-start:%s" % (label, previous),
                     "runner %d (%s) did not start accepting: %r" % (index, previous, why)))
                 break
+            if not running_seen and end in HELPER_ENDS and end_call:
+                # the request itself waited for `running`; the observer thread simply was
+                # not scheduled before the end
+                running_seen = [0.0]
             if not running_seen and end == "sigint" and any(
                     e == "sigint-raised" for s, n, w, e, d in ex.log):
                 # the signal is only sent once `running` is set; the observer thread simply
@@ -427,6 +447,10 @@ def scenario_params(tier):
             ENDS[:2], ["none", "sleepers", "shielded"], ["concurrent", "after"], [0.0, 0.5]):
         out.append({"phases": [{"end": end, "thread": "main", "population": population,
                                 "stop_at": stop_at, "second_shutdown": second}]})
+    for end, population, stop_at in itertools.product(
+            HELPER_ENDS, ["none", "sleepers", "shielded"], [0.0, 0.5]):
+        out.append({"phases": [{"end": end, "thread": "main", "population": population,
+                                "stop_at": stop_at}]})
     for end, population in itertools.product(BASE_ENDS, ["none", "sleepers"]):
         out.append({"phases": [{"end": end, "thread": "main", "population": population,
                                 "stop_at": 0.5}]})
